@@ -524,3 +524,70 @@ def gen_unsafe(kind):
     lines.append(";\n".join(f"  ({uop}, {nty(*tyk)}, {term(n)})" for uop, tyk, n in t))
     lines.append("].\n")
     return "\n".join(lines), t
+
+
+# ---------------------------------------------------------------- clamps on all word types; venom unary minus
+def clamp_types():
+    """word types that get clamped: conv_types() without the 256-member flag (needs_clamp is False for it)"""
+    return [t for t in conv_types() if t[1] != ("flag", 256)]
+
+
+def venom_usub(T):
+    """codegen_venom/expr.py Expr.lower_UnaryOp (USub branch) on the symbolic operand %1."""
+    from vyper import ast as vy_ast
+    from vyper.codegen_venom import expr as VE
+    RealExpr = VE.Expr
+
+    def g(b, x, y):
+        node = vy_ast.UnaryOp.__new__(vy_ast.UnaryOp)
+        operand = types.SimpleNamespace(_metadata={"type": T})
+        object.__setattr__(node, "__dict__", node.__dict__) if False else None
+        for k, v in (("operand", operand), ("op", vy_ast.USub.__new__(vy_ast.USub)), ("_metadata", {"type": T})):
+            try:
+                setattr(node, k, v)
+            except AttributeError:
+                node.__dict__[k] = v
+        fake_self = types.SimpleNamespace(node=node, ctx=None, builder=b)
+
+        class FakeExpr:
+            def __init__(self, n, c):
+                pass
+
+            def lower_value(self):
+                return x
+
+        with mock.patch.object(VE, "Expr", FakeExpr):
+            vv = RealExpr.lower_UnaryOp(fake_self)
+        op = getattr(vv, "operand", None)
+        if op is None:
+            op = getattr(vv, "value", vv)
+        return op
+
+    ins, r, _, _ = venom_record(g)
+    return ins, r
+
+
+def gen_clamps():
+    from vyper.codegen.core import clamp_basetype
+    from vyper.codegen.ir_node import IRnode
+    from vyper.codegen_venom import arithmetic as V
+    from vyper.codegen_venom.abi import abi_decoder as AD
+    tys = clamp_types()
+    leg, varith, vabi, vus = [], [], [], []
+    with settings_ctx():
+        for ci, ki, T in tys:
+            leg.append((ci, ki, clamp_basetype(IRnode.from_list("x", typ=T))))
+            if ki[0] != "flag":
+                ins, r, _, _ = venom_record(lambda b, x, y: V.clamp_basetype(b, x, T))
+                varith.append((ci, ki, (ins, r)))
+            ins, r, _, _ = venom_record(lambda b, x, y: AD.clamp_basetype(types.SimpleNamespace(builder=b), x, T))
+            vabi.append((ci, ki, (ins, r)))
+        for k, s, d, T in num_types():
+            if s:
+                vus.append((nty(k, s, d), (k, s, d), venom_usub(T)))
+    lines = [HEADER.replace("C03.ArithSpec.", "C03.ArithSpec C03.ConvSpec.")]
+    lines.append("Definition legacy_cclamps : list (cty * lir) := [\n" + ";\n".join(f"  ({c}, {lir_term(n)})" for c, _, n in leg) + "\n].\n")
+    lines.append("Definition venom_cclamps_arith : list (cty * vtemplate) := [\n" + ";\n".join(f"  ({c}, {vtemplate_term(*n)})" for c, _, n in varith) + "\n].\n")
+    lines.append("Definition venom_cclamps_abi : list (cty * vtemplate) := [\n" + ";\n".join(f"  ({c}, {vtemplate_term(*n)})" for c, _, n in vabi) + "\n].\n")
+    lines.append("Definition venom_usubs : list (nty * vtemplate) := [\n" + ";\n".join(f"  ({c}, {vtemplate_term(*n)})" for c, _, n in vus) + "\n].\n")
+    return "\n".join(lines), dict(legacy=leg, venom_arith=varith, venom_abi=vabi, venom_usub=vus)
